@@ -25,4 +25,14 @@ OBLIGATIONS += [
      "unwind": 4, "timeout": 300, "exact": True, "allow_nobody": [],
      "title": "x509_validity_check: accepted <=> notBefore <= now <= notAfter (and lifetime <= max)", "bounds": "all times below 2^40 s"},
 ]
+OBLIGATIONS += [
+    {"id": "C07-c.cert_check", "harness": "harness/C07/certcheck.c", "entry": "h_cert_check", "units": ["x509_cer.c"],
+     "remove": {"x509_cer.c": ["x509_cert_get_details", "x509_name_check", "x509_cert_print", "x509_cert_get_issuer", "x509_cert_get_subject", "x509_cert_get_subject_public_key", "x509_signed_verify"]}, "unwind": 8, "timeout": 600,
+     "title": "x509_cert_check accepts => v3, non-empty serial, now within the validity period, well-formed non-empty issuer and subject, extension profile of the role accepted, inner = outer signature algorithm",
+     "bounds": "all decoded field values (abstract parser), all times below 2^40 s", "stubs": ["x509_cert_get_details: abstract decoded fields", "x509_name_check / x509_exts_check: arbitrary verdicts (x509_exts_check itself: C07-b)", "time(): arbitrary"]},
+    {"id": "C07-c.link_verify", "harness": "harness/C07/certcheck.c", "entry": "h_link", "units": ["x509_cer.c"],
+     "remove": {"x509_cer.c": ["x509_cert_get_details", "x509_name_check", "x509_cert_print", "x509_cert_get_issuer", "x509_cert_get_subject", "x509_cert_get_subject_public_key", "x509_signed_verify"]}, "unwind": 8, "timeout": 600,
+     "title": "x509_cert_verify_by_ca_cert accepts <=> issuer(cert) = subject(CA) byte for byte and x509_signed_verify accepts under the CA certificate's public key and the caller's ID",
+     "bounds": "names of 1..3 bytes, all contents; all outcomes of the field extractors", "stubs": ["field extractors: abstract", "x509_signed_verify: arbitrary verdict, records its arguments (the function itself: C15)"]},
+]
 NOTE = "C07: certificate chain validation."
